@@ -264,12 +264,32 @@ def expected_strategy_expr(cfg, nfn):
     return f"[enc_strategy (select_legacy {b(none)} {b(cs)} {b(cfg.debug)} {nfn})]"
 
 
-def observed_strategy(asm):
-    if "BUCKET_HEADERS" in asm:
-        return 2
-    if "selector_bucket" in asm:
-        return 1
-    return 0
+class StrategySpy:
+    """Records which selector-section generator the compiler calls (wraps the six anchored functions)."""
+    NAMES = [("vyper.codegen.module", "_selector_section_linear", 0), ("vyper.codegen.module", "_selector_section_sparse", 1),
+             ("vyper.codegen.module", "_selector_section_dense", 2),
+             ("vyper.codegen_venom.module", "_generate_selector_section_linear", 0),
+             ("vyper.codegen_venom.module", "_generate_selector_section_sparse", 1),
+             ("vyper.codegen_venom.module", "_generate_selector_section_dense", 2)]
+
+    def __enter__(self):
+        import importlib
+        self.calls = []
+        self.saved = []
+        for modname, fn, code in self.NAMES:
+            mod = importlib.import_module(modname)
+            orig = getattr(mod, fn)
+            self.saved.append((mod, fn, orig))
+
+            def wrap(*a, _orig=orig, _code=code, _venom=modname.endswith("venom.module"), **kw):
+                self.calls.append((_venom, _code))
+                return _orig(*a, **kw)
+            setattr(mod, fn, wrap)
+        return self
+
+    def __exit__(self, *a):
+        for mod, fn, orig in self.saved:
+            setattr(mod, fn, orig)
 
 
 def coq_entry(e, idx):
@@ -363,13 +383,18 @@ def part_dispatch(ctx, model_ok):
             exp_strat = strat_out[si]
             si += 1
             try:
-                out = configs.compile_src(src, cfg, formats=("bytecode", "asm_runtime"))
+                with StrategySpy() as spy:
+                    out = configs.compile_src(src, cfg, formats=("bytecode",))
             except Exception as e:  # noqa
                 ctx.violation("correspondence-broken", f"generated contract does not compile under {cfg.name}: {type(e).__name__}: {e}",
                               {"source": src, "config": cfg.name})
                 return n_calls, found
-            obs_strat = observed_strategy(out["asm_runtime"])
-            if fns and obs_strat != exp_strat:
+            if len(spy.calls) != 1 or spy.calls[0][0] != cfg.venom:
+                ctx.violation("correspondence-broken", "expected exactly one selector-section generator call of the configured pipeline",
+                              {"config": cfg.name, "calls": spy.calls})
+                return n_calls, found
+            obs_strat = spy.calls[0][1]
+            if obs_strat != exp_strat:
                 ctx.violation("correspondence-broken", "dispatcher strategy selected by the compiler differs from select_legacy/select_venom",
                               {"config": cfg.name, "n_functions": len(fns), "model": exp_strat, "observed": obs_strat,
                                "legend": "0 linear, 1 sparse, 2 dense"})
@@ -423,7 +448,30 @@ def part_dispatch(ctx, model_ok):
     return len(distinct), found
 
 
+def replay(ctx):
+    """Re-execute one recorded failing dispatch case on the current tree."""
+    import json
+    rec = json.load(open(ctx.replay))
+    d = rec.get("detail", {})
+    if "source" not in d or "calldata" not in d:
+        ctx.log("replay: nothing executable in this record (kind=%s)" % rec.get("kind"))
+        return
+    cfg = next((c for c in strategy_configs("thorough") if c.name == d["config"]), None)
+    out = configs.compile_src(d["source"], cfg, formats=("bytecode",))
+    ch = evm.Chain(cfg.evm)
+    addr = ch.deploy(bytes.fromhex(out["bytecode"][2:]))
+    r = ch.call(addr, bytes.fromhex(d["calldata"]), value=d["value"])
+    o = G.observe(r, None)
+    obs = [o[0]] + ([o[1].hex()] if o[0] == "enter" else list(o[1:]))
+    exp = [d["expected"][0]] + ([d["expected"][2]] if d["expected"][0] == "enter" else [])
+    ctx.log(f"replay: expected {d['expected']} observed {obs}")
+    if obs != exp:
+        ctx.violation("failing-input", "emitted dispatcher disagrees with spec_dispatch (replay)", d, key=rec.get("key"))
+
+
 def run(ctx):
+    if ctx.replay:
+        return replay(ctx)
     t = time.time()
     b = ctx.coq_build(COQ_FILES)
     ctx.log(f"coq build: {time.time() - t:.1f}s ok={b['ok']}")
